@@ -2,7 +2,7 @@
    Only property theorems (closed by [exact]) and Print Assumptions.  Model: Cluster/Model.v (repaired protocol),
    Cluster/CodeModel.v (what the code does at Attach). *)
 From Coq Require Import List Arith Bool.
-From Oxia.Cluster Require Import Model CodeModel Invariants Preservation Witness Witness_code.
+From Oxia.Cluster Require Import Model CodeModel Invariants Preservation Witness Witness_code DiskLoss.
 Import ListNotations.
 
 (* For every ensemble, every execution of any length built from elections, NewTerm/BecomeLeader/Attach(Truncate)/
@@ -45,6 +45,28 @@ Theorem c01_refuted_swap :
             nlog (nodes w 1) = [] /\ acked_survive_b w [1; 2; 3; 4] = false.
 Proof. exact swap_loses_ack_refutes. Qed.
 Print Assumptions c01_refuted_swap.
+
+(* Disk loss.  [xrun] = the code's step function plus the action "node n comes back with an empty disk".
+   Executions in which every node keeps its disk are exactly those of [run_code], so the theorems above cover them. *)
+Theorem c01_all_disks_kept_is_run_code : forall acts w,
+  xrun w (map Base acts) = run_code w acts /\ lost_disks (map Base acts) = [].
+Proof. exact (fun acts w => conj (xrun_embeds acts w) (lost_disks_embeds acts)). Qed.
+Print Assumptions c01_all_disks_kept_is_run_code.
+
+(* The property's clause is weaker ("as long as a majority of the ensemble keeps its disk") and is false of the
+   protocol: rf 3, the write is acknowledged with copies on 1 (leader) and 2; node 2 loses its disk, node 1 is
+   unreachable; 2 and 3 both report an empty log and 3 becomes leader of term 2 with an empty log, although nodes 1
+   and 3 kept their disks.  (Any quorum protocol that lets a node with a wiped disk vote as if it had never held
+   anything has this behaviour; oxia has no per-node incarnation id that would let the coordinator tell.) *)
+Theorem c01_refuted_minority_disk_loss :
+  exists w, xrun (init [1; 2; 3]) minority_disk_loss_trace = Some w /\
+            lost_disks minority_disk_loss_trace = [2] /\
+            majority_keeps_disk [1; 2; 3] minority_disk_loss_trace = true /\
+            In (1, 0, dl_e1) (cacked w) /\
+            nst (nodes w 3) = Leader /\ nterm (nodes w 3) = 2 /\ nlog (nodes w 3) = [] /\
+            acked_survive_b w [1; 2; 3] = false.
+Proof. exact minority_disk_loss_loses_ack. Qed.
+Print Assumptions c01_refuted_minority_disk_loss.
 
 (* Non-vacuity: an execution with two elections, a leader crash and two acknowledged writes. *)
 Theorem c01_nonvacuous :
